@@ -30,6 +30,11 @@ def r1_per_class_length_agreement(ctx: Ctx) -> None:
     terms = node_class_terms(ctx.repo)
     for name, (ci, et, at, em, pa) in sorted(terms.items()):
         ctx.count("node_classes")
+        if "multi" in (et.kind, at.kind):
+            if et.kind == at.kind == "multi" and et.value == at.value:
+                raise AnalysisError(f"{name}: emit and pc_after both return differing terms {et.value}; the guards are not compared")
+            ctx.fail(f"{name}:emit-vs-pc_after", f"emit() yields {et}, pc_after() advances by {at}: on some path the layout passes and the emit pass disagree")
+            continue
         if at.kind == "jump":
             ctx.check(et == ZERO, f"{name}:emit-vs-pc_after", f"pc_after moves to a new address and emit returns {et}; a position node emits nothing")
             continue
@@ -307,6 +312,13 @@ def r5_position_bookkeeping(ctx: Ctx) -> None:
     r3_position_nodes(ctx)
 
 
+def r6_address_advance(ctx: Ctx) -> None:
+    """a label after n bytes is the address n bytes further in the mapping, across bank ends (the C04.R5 obligation)"""
+    from .c04 import r5_formula_normal_form
+
+    r5_formula_normal_form(ctx)
+
+
 def rb_binding_agreement(ctx: Ctx) -> None:
     from ..ownership import binding_agreement
 
@@ -320,4 +332,4 @@ def rm_no_process_lifetime_results(ctx: Ctx) -> None:
     state_rule(ctx)
 
 
-RULES = [r1_per_class_length_agreement, r2_opcode_emitters, r3_traversal_agreement, r4_state_dependent_width_rechecked, r5_position_bookkeeping, rb_binding_agreement, rm_no_process_lifetime_results]
+RULES = [r1_per_class_length_agreement, r2_opcode_emitters, r3_traversal_agreement, r4_state_dependent_width_rechecked, r5_position_bookkeeping, r6_address_advance, rb_binding_agreement, rm_no_process_lifetime_results]
